@@ -176,7 +176,7 @@ def text_literal(chars):
     return '"' + chars.replace('"', '""') + '"'
 
 
-TEXTS = ['a', '', 'a b', 'it"s', '"', '""', '"a"', 'a"', '"a', 'back\\slash', '\\', '\\n', 'end\\', 'new\nline', '{b}', '{', "q'q",
+TEXTS = ['\U0001F600', 'ok \U0001F600', '\U0001D4B3x', '\u6f22\u5b57', '\u00fc\u00df', 'a', '', 'a b', 'it"s', '"', '""', '"a"', 'a"', '"a', 'back\\slash', '\\', '\\n', 'end\\', 'new\nline', '{b}', '{', "q'q",
          '#', 'x=1', '\\"', '%d', 'tab\t']
 
 
@@ -309,7 +309,7 @@ def bounded(tier, seed, R):
             R.check('bounded/value_equals_grammar_value', same_value(got, want), dict(w, got=repr(got), want=repr(want)))
     # literals denote themselves: exhaustively over an alphabet of awkward characters up to a length, then in contexts
     import itertools
-    alphabet = ['a', '"', '\\', '\n', '{', "'", '%']
+    alphabet = ['a', '"', '\\', '\n', '{', "'", '%', '\U0001F600']
     for n in range(0, 4 if not thorough else 6):
         for tup in itertools.product(alphabet, repeat=n):
             chars = ''.join(tup)
